@@ -101,13 +101,20 @@ func VerifyFunc(ld *Loader, specs *Specs, fk string, safetyOnly bool) (res *Func
 			}
 			// forbidden calls: a syntactic obligation over the function and all its closures
 			for i, fb := range fc.Forbid {
-				want := strings.TrimSpace(strings.TrimPrefix(fb.Text, "call"))
+				kindWord, want := firstWord(fb.Text)
+				want = strings.TrimSpace(want)
 				found := ""
 				var scan func(f *ssa.Function)
 				scan = func(f *ssa.Function) {
 					for _, b := range f.Blocks {
 						for _, in := range b.Instrs {
-							if ci, ok := in.(ssa.CallInstruction); ok {
+							if st, ok := in.(*ssa.Store); ok && kindWord == "store" {
+								n := chanName(st.Addr)
+								if n == want && found == "" {
+									found = ex.posString(in.Pos())
+								}
+							}
+							if ci, ok := in.(ssa.CallInstruction); ok && kindWord == "call" {
 								if n := calleeName(ci.Common()); (n == want || strings.HasSuffix(n, "."+want) || strings.HasSuffix(n, ")."+want)) && found == "" {
 									found = ex.posString(in.Pos())
 								}
